@@ -84,7 +84,13 @@ def f_r2_init(schema: Schema, rep: Report):
     vcalls = [c_ for c_ in ast.walk(fn) if isinstance(c_, ast.Call) and isinstance(c_.func, ast.Attribute) and c_.func.attr == "validate_args"]
     if vcalls:
         vline = min(c_.lineno for c_ in vcalls)
-        late = [s_ for s_ in ast.walk(fn) if isinstance(s_, (ast.Assign, ast.AnnAssign, ast.AugAssign)) and s_.lineno > vline and any(isinstance(t_, ast.Name) and t_.id in (va, kw) for t_ in (s_.targets if isinstance(s_, ast.Assign) else [s_.target]))]
+        def _same_mapping(s_):
+            # a plain copy keeps names and values: dict(kwargs) / kwargs.copy() / {**kwargs} / tuple(args) / list(args)
+            v_ = getattr(s_, "value", None)
+            t_ = text(v_).replace(" ", "") if v_ is not None else ""
+            return t_ in (f"dict({kw})", f"{kw}.copy()", "{**%s}" % kw, f"dict(**{kw})", f"tuple({va})", f"list({va})", f"{va}[:]")
+
+        late = [s_ for s_ in ast.walk(fn) if isinstance(s_, (ast.Assign, ast.AnnAssign, ast.AugAssign)) and s_.lineno > vline and any(isinstance(t_, ast.Name) and t_.id in (va, kw) for t_ in (s_.targets if isinstance(s_, ast.Assign) else [s_.target])) and not _same_mapping(s_)]
         rep.check("F-R2", "__init__:validated-arguments-are-the-applied-ones", not late, f"`{text(late[0])[:60]}` re-binds the arguments after validate_args() has judged them: the mutex / group constraints were evaluated on names or values that are not the ones applied (CURRENCY=.., ORIGCURRENCY=.. in upper case count as absent, then both are set)" if late else "", f"{rel}:{(late[0] if late else fn).lineno}")
     via = [n.id for n in cfg.nodes_calling(self_call("_apply_args", True, False))]
     ok = bool(via) and cfg.must_pass_through([cfg.exit.id], via)
